@@ -17,9 +17,10 @@ DIFF = [
 def main(tier, seed):
     skels = QUICK + (THOROUGH if tier == 'thorough' else [])
     small = dict(sizecap=32 * 2 ** 20, cfg=dict(eager_div=6))
+    # an empty poll at the tail before the restart (the provisional tail position must not rewind the cursor);
     # two restarts with small entries (no rotation): tail cursors persisted by block id must survive id reassignment
     tiny = dict(sizecap=4096, cfg=dict(eager_div=6))
-    jobs = [dict(skel=s, backend='fd', consistency='StrictlyAtOnce', **tiny) for s in (['a,n,X,a,a,n,n,X,c,n', 'a,a,n,X,a,n,n,X,b,c'] + (['a,X,a,n,X,a,n,n,X,n,c'] if tier == 'thorough' else []))]
+    jobs = [dict(skel=s, backend='fd', consistency='StrictlyAtOnce', **tiny) for s in (['a,n,n,X,n,c', 'a,n,X,a,a,n,n,X,c,n', 'a,a,n,X,a,n,n,X,b,c', 'a,a,b,b,X,b,c'] + (['a,X,a,n,X,a,n,n,X,n,c'] if tier == 'thorough' else []))]
     jobs += [dict(skel=s, backend='fd', consistency='StrictlyAtOnce', **small) for s in skels]
     jobs += [dict(skel=s, backend='mmap', consistency='StrictlyAtOnce', **small) for s in skels[:2]]
     # one large entry (every accepted size) around a restart, both back ends
